@@ -91,6 +91,24 @@ var c09Fields = []struct {
 	}},
 }
 
+func c09CatalogueSize() int {
+	n := 0
+	for _, c := range gstrCatalogue {
+		n += len(c.vals)
+	}
+	return n
+}
+
+func c09CatalogueEntry(i int) (class, val string) {
+	for _, c := range gstrCatalogue {
+		if i < len(c.vals) {
+			return c.name, c.vals[i]
+		}
+		i -= len(c.vals)
+	}
+	return "", ""
+}
+
 func c09Base(r *rand.Rand) *specs.Spec {
 	s := &specs.Spec{Version: "1.0.0", Kind: "vendor.com/gpu"}
 	s.Devices = []specs.Device{{Name: "dev0", ContainerEdits: specs.ContainerEdits{Env: []string{"BASE=1"}}}}
@@ -130,7 +148,7 @@ func checkC09(c *Ctx) {
 	c.Assume("equality identifies nil and empty containers (normalised JSON comparison)", "only valid UTF-8 strings are generated (the property quantifies over valid UTF-8)")
 	dir := filepath.Join(c.Scratch, "c09")
 	must(os.MkdirAll(dir, 0o755))
-	c.RunCases("gen", c.pick(4000, 150000), 0, func(cs *Case) {
+	c.RunCases("gen", c.pick(5500, 150000), 0, func(cs *Case) {
 		r := cs.R
 		s := c09Base(r)
 		var field, class, val string
@@ -151,6 +169,16 @@ func checkC09(c *Ctx) {
 			}
 			s.Devices = append(s.Devices, specs.Device{Name: "last", ContainerEdits: specs.ContainerEdits{Env: []string{"LAST=1"}}})
 			c.Count("large_specs", 1)
+		} else if k := idx - len(largeSizes); k < len(c09Fields)*c09CatalogueSize() {
+			// every catalogue string in every free-text field, whatever the seed
+			f := c09Fields[k%len(c09Fields)]
+			class, val = c09CatalogueEntry(k / len(c09Fields))
+			field = f.name
+			if !f.set(s, val) {
+				c.Count("skipped_invalid_for_field", 1)
+				return
+			}
+			c.Count("catalogue_strings_x_fields", 1)
 		} else if chance(r, 6) {
 			// in-memory shapes a parsed document never has: allocated but empty lists and
 			// maps. Whether such a Spec is accepted for writing is the library's call
@@ -301,4 +329,5 @@ func checkC09(c *Ctx) {
 	})
 	c.Floor("roundtrips_ok", 1000)
 	c.Floor("large_specs", 2)
+	c.Floor("catalogue_strings_x_fields", 2000)
 }
